@@ -168,6 +168,24 @@ def _run_unit(job):
         return idx, None, traceback.format_exc()
 
 
+def _replay_case(job):
+    modname, case = job
+    try:
+        mod = importlib.import_module(modname)
+        return [a['sig'] for a in mod.replay(case)], None
+    except BaseException:  # noqa
+        return None, traceback.format_exc()
+
+
+def _replay_signatures(modname, case):
+    ctx = mp.get_context('fork')
+    with ctx.Pool(1, initializer=_worker_init, maxtasksperchild=1) as pool:
+        sigs, err = pool.apply(_replay_case, ((modname, case),))
+    if err:
+        print(err, file=sys.stderr)
+    return sigs
+
+
 def _unit_signatures(modname, idx, arg):
     """violation signatures of one work unit executed in a freshly forked process"""
     ctx = mp.get_context('fork')
@@ -283,12 +301,10 @@ def main(argv=None):
         # confirm twice from the recorded case before reporting
         ok = True
         for _ in range(2):
-            try:
-                again = mod.replay(v['case'])
-            except BaseException:  # noqa
-                traceback.print_exc()
-                again = None
-            if again is None or v['sig'] not in [a['sig'] for a in again]:
+            # each replay runs in a freshly forked child: the parent never executes library code, so state that the library
+            # keeps per process (class-level caches, module-level defaults) cannot leak from one confirmation into the next
+            again = _replay_signatures(modname, v['case'])
+            if again is None or v['sig'] not in again:
                 ok = False
         rdir = os.path.join(VERIF, 'replays', prop)
         os.makedirs(rdir, exist_ok=True)
